@@ -355,7 +355,7 @@ impl Check for C08 {
     }
 
     fn rule(&self) -> String {
-        "each seeded run is an adaptive game against the real batch verifier over the free module: 2-5 honest proofs over one generator set (bits*m >= 2, ext 1..6, mixed aggregation), a pair (i, j) and coordinate k; the adversary submits, reads the factors w_i(t), w_j(t) actually used from the verifier's final MSM (scalar on B_i), and chooses the next perturbation of d1[k] (delta_i = c*w_j, delta_j = -c*w_i: exact cancellation if the factors stay), optionally also touching r1/s1 of one member, permuting the batch, or solving a three-member linear dependency; 8 rounds (64 thorough); invariants after every submission: a batch with an invalid member is rejected, every factor is non-zero, the ratio w_i/w_j changes whenever a response scalar of i or j changed; one evaluation = one verify_batch call; distinct = distinct event-log hashes".into()
+        "each seeded run is an adaptive game against the real batch verifier over the free module: 2-5 honest proofs over one generator set (bits*m >= 2, ext 1..6, mixed aggregation), a pair (i, j) and coordinate k; the adversary submits, reads the factors w_i(t), w_j(t) actually used from the verifier's final MSM (scalar on B_i), and chooses the next perturbation of d1[k] (delta_i = c*w_j, delta_j = -c*w_i: exact cancellation if the factors stay), optionally also touching r1/s1 of one member, permuting the batch, holding one member exactly as last submitted while adapting only the other, or solving a three-member linear dependency; the members stand alone, behind 256+ fillers, or at the end of an exactly full chunk of 256; 8 rounds (64 thorough); invariants after every submission: a batch with an invalid member is rejected, every factor is non-zero, the ratio w_i/w_j changes whenever a response scalar of i or j changed; one evaluation = one verify_batch call; distinct = distinct event-log hashes".into()
     }
 
     fn assumptions(&self) -> Vec<String> {
